@@ -5,6 +5,7 @@ import UmProofs.BrokerScaleOut
 import UmProofs.BrokerScaleDownC
 import UmProofs.BrokerScaleFinalB
 import UmProofs.BrokerScaleDisj
+import UmProofs.BrokerScaleFailover
 /-!
 # C10 — Scaling completes to a balanced full partition and frees only empty chunks
 
@@ -36,11 +37,11 @@ hypotheses — no bound on the number of chunks, tasks, or commits.
   `migrate_slots` / `migrate_slots_to_scale_down` succeed (no panic in the planner nor in
   `assign_dst_slots`), and if the resulting cluster satisfies the shared invariants
   `PosInv ∧ TwinInv ∧ SlotInv` (their preservation by every operation is C01's obligation), then
-  every chain of successful commits — any order, any `clear` flags — that exhausts the pending
-  tasks ends in a balanced cluster with the new master number; after a scale-in to `n'` chunks
-  exactly the chunks `≥ n'` are slot-less (and gone if the last commit cleared them).
-  `C10_balanced_partial` is the name under which the still conditional part is listed: commits
-  interleaved with failovers are not covered by a theorem.
+  every chain of successful commits — any order, any `clear` flags, failovers interleaved
+  (`ScaleChain`; the cluster a failover leaves must again satisfy the shared invariants) — that
+  exhausts the pending tasks ends in a balanced cluster with the new master number; after a
+  scale-in to `n'` chunks exactly the chunks `≥ n'` are slot-less (and gone if a commit cleared
+  them).
 -/
 namespace Um.Broker.C10
 open Um Um.Slots Um.Broker Um.Broker.Scale
@@ -133,12 +134,8 @@ theorem C10_release_change {s : Store} {name : String} {cl : Cluster} (expected 
 /-! ## commits -/
 
 /-- `CommitInv` follows from the shared invariant definitions of `BrokerDefs` -/
-theorem C10_commitInv_of_invs {c : Cluster} (hp : PosInv c) (ht : TwinInv c) (hs : SlotInv c) : CommitInv c := by
-  refine ⟨hp, ht, ?_⟩
-  intro m hm
-  obtain ⟨ch, hch, hmem⟩ := Cluster.mem_migs.mp hm
-  have := (hs.1 ch hch).2 m (by simpa [Chunk.migs] using hmem)
-  exact compact_of_normal this.1
+theorem C10_commitInv_of_invs {c : Cluster} (hp : PosInv c) (ht : TwinInv c) (hs : SlotInv c) : CommitInv c :=
+  commitInv_of_invs hp ht hs
 
 /-- **C10_commit_progress**: every stored migrating entry's descriptor is accepted; the new
 cluster is `commitRes`: on the decomposition `chunks = A ++ dch :: B` at the destination chunk,
@@ -291,9 +288,10 @@ theorem C10_projInv_of_invs {c : Cluster} (ht : TwinInv c) (hs : SlotInv c) : Pr
 
 /-- **C10_balanced_scale_out**: a balanced cluster of `n` chunks (master `i` of `2n` owns
 `quota (2n) i` slots) followed by `k > 0` empty chunks, nothing pending, `2(n+k) ≤ SLOT_NUM`.
-`migrate_slots` succeeds; and if the cluster it writes satisfies the shared invariants, every chain
-of `#pending` successful `commit_migration` calls (any order, any `clear` flags) ends in a balanced
-cluster of `n + k` chunks: master `i` of `2(n+k)` owns `quota (2(n+k)) i` slots. -/
+`migrate_slots` succeeds; and if the cluster it writes satisfies the shared invariants, every
+`ScaleChain` with `#pending` successful `commit_migration` calls (any order, any `clear` flags,
+failovers interleaved — each failover's result again required to satisfy the shared invariants)
+ends in a balanced cluster of `n + k` chunks: master `i` of `2(n+k)` owns `quota (2(n+k)) i` slots. -/
 theorem C10_balanced_scale_out {s : Store} {name : String} {cl : Cluster} {A B : List Chunk} {n k : Nat}
     (hv : validName name = true) (hf : s.findCluster name = some cl)
     (hch : cl.chunks = A ++ B) (hA : A.length = n) (hB : B.length = k) (hn : 0 < n) (hk : 0 < k)
@@ -302,19 +300,19 @@ theorem C10_balanced_scale_out {s : Store} {name : String} {cl : Cluster} {A B :
     ∃ c1, migrateSlots s name = (s.bump.setCluster c1, R.ok ()) ∧
       (s.bump.setCluster c1).findCluster name = some c1 ∧ c1.chunks.length = n + k ∧
       (PosInv c1 → TwinInv c1 → SlotInv c1 →
-        ∀ s', CommitChain name (s.bump.setCluster c1) (Cluster.pending c1).length s' →
+        ∀ s', ScaleChain name (s.bump.setCluster c1) (Cluster.pending c1).length s' →
           ∃ c', s'.findCluster name = some c' ∧ Balanced c' ∧ BalancedShape c'.chunks (n + k)) := by
   obtain ⟨c1, h1, h2, h3, h4⟩ := scaleOut_balanced hv hf hch hA hB hn hk hfull hempty hnm hM
   refine ⟨c1, h1, h2, h3, ?_⟩
   intro hp ht hs s' hchain
-  exact commitChain_to_balanced h2 (C10_commitInv_of_invs hp ht hs) (h4 (projInv_of_invs ht hs)) hchain
-    (by omega) hM (fun _ _ => rfl)
+  exact scaleChain_to_balanced (by omega) hM (fun _ _ => rfl) hchain h2
+    (Or.inl ⟨C10_commitInv_of_invs hp ht hs, h4 (projInv_of_invs ht hs), rfl⟩)
 
 /-- **C10_balanced_scale_down**: a balanced cluster of `n` chunks, nothing pending, shrinking to
 `0 < n' < n` chunks.  `migrate_slots_to_scale_down` succeeds; and if the cluster it writes satisfies
-the shared invariants, every chain of `#pending` successful commits ends in a cluster whose first
-`n'` chunks are balanced over `2n'` masters and whose remaining chunks are exactly the slot-less
-ones (`BalancedShape … n'`; they are gone if the last commit cleared them). -/
+the shared invariants, every `ScaleChain` with `#pending` successful commits (failovers interleaved)
+ends in a cluster whose first `n'` chunks are balanced over `2n'` masters and whose remaining chunks
+are exactly the slot-less ones (`BalancedShape … n'`; they are gone if a commit cleared them). -/
 theorem C10_balanced_scale_down {s : Store} {name : String} {cl : Cluster} {n n' : Nat}
     (hv : validName name = true) (hf : s.findCluster name = some cl)
     (hfull : FullChunks (n * 2) cl.chunks 0) (hlen : cl.chunks.length = n) (hnm : NoMigs cl.chunks)
@@ -322,13 +320,18 @@ theorem C10_balanced_scale_down {s : Store} {name : String} {cl : Cluster} {n n'
     ∃ c1, migrateSlotsToScaleDown s name (n' * 4) = (s.bump.setCluster c1, R.ok ()) ∧
       (s.bump.setCluster c1).findCluster name = some c1 ∧ c1.chunks.length = n ∧
       (PosInv c1 → TwinInv c1 → SlotInv c1 →
-        ∀ s', CommitChain name (s.bump.setCluster c1) (Cluster.pending c1).length s' →
+        ∀ s', ScaleChain name (s.bump.setCluster c1) (Cluster.pending c1).length s' →
           ∃ c', s'.findCluster name = some c' ∧ Balanced c' ∧ BalancedShape c'.chunks n') := by
   obtain ⟨c1, h1, h2, h3, h4⟩ := scaleDown_balanced hv hf hfull hlen hnm h0 hlt hM
   refine ⟨c1, h1, h2, h3, ?_⟩
   intro hp ht hs s' hchain
-  exact commitChain_to_balanced h2 (C10_commitInv_of_invs hp ht hs) (h4 (projInv_of_invs ht hs)) hchain
-    h0 (by omega) (fun idx hidx => by simp [hidx])
+  exact scaleChain_to_balanced h0 (by omega) (fun idx hidx => by simp [hidx]) hchain h2
+    (Or.inl ⟨C10_commitInv_of_invs hp ht hs, h4 (projInv_of_invs ht hs), rfl⟩)
+
+/-- pure commit chains (`C10_terminates`) are `ScaleChain`s -/
+theorem C10_chain_embeds {name : String} {s s' : Store} {k : Nat} (h : CommitChain name s k s') :
+    ScaleChain name s k s' :=
+  ScaleChain.of_commitChain h
 
 /-- what `Balanced` / `BalancedShape` say, spelled out by index: the first `N` chunks have both
 halves `Some`, master `i < 2N` owns `quota (2N) i` slots, every later chunk has both halves `None` -/
@@ -428,7 +431,7 @@ example : ∃ out, removeSlotsToScaleDown exTwo 6 1 =
 example : ∃ c1, migrateSlots (exStore exIdle) "c" = ((exStore exIdle).bump.setCluster c1, R.ok ()) ∧
     ((exStore exIdle).bump.setCluster c1).findCluster "c" = some c1 ∧ c1.chunks.length = 1 + 1 ∧
     (PosInv c1 → TwinInv c1 → SlotInv c1 →
-      ∀ s', CommitChain "c" ((exStore exIdle).bump.setCluster c1) (Cluster.pending c1).length s' →
+      ∀ s', ScaleChain "c" ((exStore exIdle).bump.setCluster c1) (Cluster.pending c1).length s' →
         ∃ c', s'.findCluster "c" = some c' ∧ Balanced c' ∧ BalancedShape c'.chunks (1 + 1)) := by
   apply C10_balanced_scale_out (A := exIdle.chunks.dropLast) (B := [exChunk none none [] "c:1" "d:1"])
     (by decide) rfl rfl rfl rfl (by decide) (by decide)
@@ -443,7 +446,7 @@ example : ∃ c1, migrateSlots (exStore exIdle) "c" = ((exStore exIdle).bump.set
 example : ∃ c1, migrateSlotsToScaleDown (exStore exTwo) "c" (1 * 4) = ((exStore exTwo).bump.setCluster c1, R.ok ()) ∧
     ((exStore exTwo).bump.setCluster c1).findCluster "c" = some c1 ∧ c1.chunks.length = 2 ∧
     (PosInv c1 → TwinInv c1 → SlotInv c1 →
-      ∀ s', CommitChain "c" ((exStore exTwo).bump.setCluster c1) (Cluster.pending c1).length s' →
+      ∀ s', ScaleChain "c" ((exStore exTwo).bump.setCluster c1) (Cluster.pending c1).length s' →
         ∃ c', s'.findCluster "c" = some c' ∧ Balanced c' ∧ BalancedShape c'.chunks 1) := by
   apply C10_balanced_scale_down (n := 2) (by decide) rfl _ rfl _ (by decide) (by decide) (by decide)
   · refine ⟨⟨[(0, 4095)], [(4096, 8191)], rfl, rfl, ⟨by simp, by simp⟩, ⟨by simp, by simp⟩, by decide, by decide⟩,
